@@ -26,6 +26,73 @@ def chunkings(data, max_cuts=3):
             yield [data[b[i]:b[i + 1]] for i in range(len(b) - 1)]
 
 
+class _ShortReads(io.RawIOBase):
+    """a raw stream that returns at most `cap` bytes per read() (pipes, sockets, remote file systems): io.RawIOBase allows it"""
+    def __init__(self, data, cap): self.b = io.BytesIO(data); self.cap = cap
+    def readable(self): return True
+    def read(self, n=-1): return self.b.read(self.cap if n is None or n < 0 else min(n, self.cap))
+    def readinto(self, buf):
+        d = self.read(len(buf)); buf[:len(d)] = d; return len(d)
+
+
+def json_file_scenarios(rs, d, which):
+    """round trips of json.dump_to_file / load_from_file that need something specific: text encodings with a byte-order mark, characters
+    str.splitlines treats as line boundaries, U+FEFF inside a string at a read-chunk boundary, streams with short reads, highly
+    redundant data (one compressed read chunk inflating to several MiB).  -> list of failures"""
+    import rxsci.container.json as js
+    fails = []; n_eval = 0
+    def roundtrip(tag, items, **kw):
+        nonlocal n_eval
+        fn = os.path.join(d, f'js_{abs(hash(tag)) % 10 ** 8}.json')
+        lkw = dict(kw); open_obj = lkw.pop('load_open_obj', None)
+        dkw = {k: v for k, v in kw.items() if k != 'load_open_obj'}
+        try:
+            out = run_plain(items, js.dump_to_file(fn, **dkw))
+            got = []; err = []
+            if open_obj is not None: lkw['open_obj'] = open_obj
+            js.load_from_file(fn, **lkw).subscribe(on_next=got.append, on_error=err.append)
+        except Exception as ex:
+            got = []; err = [ex]
+        n_eval += 1
+        if err or got != items:
+            fails.append({'scenario': tag, 'objects': len(items), 'error': repr(err[0])[:200] if err else None, 'got_count': len(got),
+                          'first_difference': next((i for i, (a, b) in enumerate(zip(got, items)) if a != b), None),
+                          'expected_at_difference': next((repr(b)[:120] for a, b in zip(got, items) if a != b), None), 'got_at_difference': next((repr(a)[:120] for a, b in zip(got, items) if a != b), None)})
+        return fn
+    if 'encodings' in which:
+        rows = [{'id': 0, 's': 'h\u00e9llo'}, {'id': 1, 's': '\U0001F600 and \u20ac'}, {'id': 2, 's': ''}, {'id': 3, 's': 'e\u0301'}]
+        for enc in ('utf-8', 'utf-16', 'utf-32'):
+            fn = roundtrip(f'encoding={enc}', rows, encoding=enc)
+            # the byte-order mark is written once: the whole file decodes, in one shot, to the lines of the dump
+            try:
+                text = open(fn, 'rb').read().decode(enc)
+                n_eval += 1
+                if text.count('\ufeff') or len(text.splitlines()) != len(rows):
+                    fails.append({'scenario': f'encoding={enc}: file content decoded in one shot', 'problem': 'byte-order mark inside the text or wrong number of lines', 'text': repr(text[:80])})
+            except Exception as ex:
+                fails.append({'scenario': f'encoding={enc}: file content decoded in one shot', 'error': repr(ex)[:200]})
+    if 'line_boundaries' in which:
+        rows = [{'id': i, 's': f'a{c}b'} for i, c in enumerate(['\u2028', '\u2029', '\u0085', '\r', '\x0b', '\x0c', '\x1c', '\x1e', '\ufeff', '\r\n'])]
+        for comp in (None, 'gzip'):
+            roundtrip(f'strings containing U+2028/U+2029/U+0085/CR/VT/FF/U+FEFF, compression={comp}', rows, compression=comp)
+    if 'bom_at_chunk_boundary' in which:
+        for off in (65533, 65534, 65535, 65536, 65537, 131072):
+            head = '{"id":0,"s":"'
+            rows = [{'id': 0, 's': 'x' * (off - len(head)) + '\ufeff' + 'tail'}, {'id': 1, 's': '\ufeffstart'}]
+            roundtrip(f'U+FEFF inside a string at byte offset {off} (read chunks are 64 KiB)', rows)
+    if 'short_reads' in which:
+        rows = [{'id': i, 's': 'v' * (i % 50)} for i in range(3000)]
+        for comp in (None, 'gzip', 'zstd'):
+            def open_obj(filename, mode, encoding=None, _c=comp):
+                return _ShortReads(open(filename, 'rb').read(), 1000)
+            roundtrip(f'custom open_obj whose read(n) returns at most 1000 bytes, compression={comp}', rows, compression=comp, load_open_obj=open_obj)
+    if 'redundant' in which:
+        rows = [{'sensor': 'temperature-probe-17', 'unit': 'celsius', 'value': 21.5, 'ok': True} for _ in range(45000)]
+        for comp in ('gzip', 'zstd'):
+            roundtrip(f'45000 equal objects (about 3 MB of text in one compressed read chunk), compression={comp}', rows, compression=comp)
+    return fails, n_eval
+
+
 def check_c15(opts):
     rx, ops, rs = _imports()
     import rxsci.framing.line as line
@@ -182,8 +249,15 @@ def check_c17(opts):
         evals += 1
         if err2 or ''.join(out2) != ''.join(text):
             fails.append({'encoding': enc, 'problem': 'decoder state leaked from a previous subscription', 'got': ''.join(out2), 'error': repr(err2[0]) if err2 else None})
-    return result('e2e.C17.codec', f'all strings of length <= {3 if tier == "quick" else 4} over {{a, e-acute, euro, emoji, combining acute}} x 4 splits x utf-8/16/32/latin-1 x all byte chunkings with <= 2 cuts',
-                  evals, evals, fails, True, t0)
+    # the json file pipeline (named in C17's anchors) uses the incremental codec: one byte-order mark per file, nothing lost at a read-chunk boundary
+    d = tempfile.mkdtemp(prefix='rxv_c17_')
+    try:
+        f2, n2 = json_file_scenarios(rs, d, ('encodings', 'bom_at_chunk_boundary'))
+        fails += f2; evals += n2
+    finally:
+        import shutil; shutil.rmtree(d, ignore_errors=True)
+    return result('e2e.C17.codec', f'all strings of length <= {3 if tier == "quick" else 4} over {{a, e-acute, euro, emoji, combining acute}} x 4 splits x utf-8/16/32/latin-1 x all byte chunkings with <= 2 cuts; '
+                  'json dump_to_file / load_from_file with utf-8/16/32 (one BOM per file) and U+FEFF at the 64 KiB read-chunk boundaries', evals, evals, fails, True, t0)
 
 
 def check_c18(opts):
@@ -233,7 +307,78 @@ def check_c18(opts):
                     fails.append(f)
                     if len(fails) > 8: break
             if len(fails) > 8: break
-    return result('e2e.C18.csv', 'floats: 13 special + 600 (10000) seeded; ints incl. > 64 bit; strings: length <= 3 (4) over {sep, quote, escape, a, space} in 1-2 columns x 5 separators; text re-chunked in two',
+    # a non-default escape character, matching on both sides: all strings of length <= 3 (4) over {sep, quote, escape, a, backslash}
+    for sep, esc in ((',', '^'), (';', '^'), (',', '~')):
+        alpha = [sep, '"', esc, 'a', '\\']
+        L = 3 if tier == 'quick' else 4
+        strs = [''.join(p_) for n in range(0, L + 1) for p_ in itertools.product(alpha, repeat=n)]
+        nf = 0
+        for s in strs:
+            for row, dtype in (((s,), [('a', 'str')]), ((s, 'z'), [('a', 'str'), ('b', 'str')]), (('z', s), [('a', 'str'), ('b', 'str')])):
+                got = roundtrip([row], dtype, sep, esc)
+                evals += 1
+                if got != [row]:
+                    fails.append({'separator': sep, 'escapechar': esc, 'row': list(row), 'expected': [row], 'got': str(got)[:200]}); nf += 1
+            if nf > 4: break
+    # files larger than the 64 KiB read chunk, with multi-byte characters everywhere (so that read-chunk boundaries fall inside characters of
+    # the encoded file), and the same dump pipeline subscribed twice (header once per subscription)
+    d = tempfile.mkdtemp(prefix='rxv_c18_')
+    try:
+        from collections import namedtuple as _nt
+        dtype = [('id', 'int'), ('name', 'str'), ('v', 'float')]
+        Item = _nt('x', [n for n, _ in dtype])
+        words = ['\u00e9t\u00e9', '\u20ac\u20ac\u20ac', '\U0001F600\U0001F601', '\u4e2d\u6587\u5b57', 'a,b', 'q"q', '', ' x ']
+        for nrows in (0, 1, 4000 if tier == 'quick' else 20000):
+            items = [Item(i, words[i % len(words)] * (1 + i % 3), i / 8) for i in range(nrows)]
+            for enc in (None, 'utf-8'):
+                fn = os.path.join(d, f'c_{nrows}_{enc}.csv')
+                try:
+                    run_plain(items, csv.dump_to_file(fn, encoding=enc))
+                    got = []; err = []
+                    csv.load_from_file(fn, csv.create_line_parser(dtype=dtype), encoding=enc).subscribe(on_next=lambda r: got.append(tuple(r)), on_error=err.append)
+                except Exception as ex:
+                    got = []; err = [ex]
+                evals += 1
+                if err or got != [tuple(i) for i in items]:
+                    fails.append({'scenario': f'dump_to_file / load_from_file, {nrows} rows, encoding={enc}, file of {os.path.getsize(fn) if os.path.exists(fn) else "?"} bytes',
+                                  'error': repr(err[0])[:200] if err else None, 'rows_read': len(got), 'first_difference': next((i for i, (a, b) in enumerate(zip(got, items)) if a != tuple(b)), None)})
+        # every alignment of a 3-byte character against the 64 KiB read boundary: the first row is padded by 0..15 bytes
+        for shift in range(16):
+            items = [Item(i, ('p' * shift if i == 0 else '') + '\u4e2d\u6587\u5b57' * 12, 0.5) for i in range(1600)]
+            fn = os.path.join(d, f'shift_{shift}.csv')
+            try:
+                run_plain(items, csv.dump_to_file(fn, encoding='utf-8'))
+                got = []; err = []
+                csv.load_from_file(fn, csv.create_line_parser(dtype=dtype), encoding='utf-8').subscribe(on_next=lambda r: got.append(tuple(r)), on_error=err.append)
+            except Exception as ex:
+                got = []; err = [ex]
+            evals += 1
+            if err or got != [tuple(i) for i in items]:
+                fails.append({'scenario': f'1600 rows of 3-byte characters, first row padded by {shift} bytes (a character straddles the 64 KiB read boundary), utf-8 file',
+                              'error': repr(err[0])[:200] if err else None, 'rows_read': len(got)})
+                break
+        import rx as _rx
+        items = [Item(i, 'n%d' % i, 0.5) for i in range(3)]
+        obs = _rx.from_(items).pipe(csv.dump())
+        runs = []
+        for _ in range(2):
+            out = []; obs.subscribe(on_next=out.append, on_error=lambda e: out.append(repr(e))); runs.append(''.join(out))
+        evals += 1
+        if runs[0] != runs[1] or not runs[0].startswith('id,name,v'):
+            fails.append({'scenario': 'the same csv.dump pipeline subscribed twice', 'first': runs[0], 'second': runs[1]})
+        fn = os.path.join(d, 'twice.csv'); dobs = _rx.from_(items).pipe(csv.dump_to_file(fn))
+        reads = []
+        for _ in range(2):
+            dobs.subscribe(on_error=lambda e: None)
+            got = []; csv.load_from_file(fn, csv.create_line_parser(dtype=dtype)).subscribe(on_next=lambda r: got.append(tuple(r)), on_error=lambda e: got.append(repr(e)))
+            reads.append(got)
+        evals += 1
+        if reads[0] != [tuple(i) for i in items] or reads[1] != reads[0]:
+            fails.append({'scenario': 'the same dump_to_file pipeline subscribed twice (re-export), file loaded after each', 'first': str(reads[0])[:200], 'second': str(reads[1])[:200]})
+    finally:
+        import shutil; shutil.rmtree(d, ignore_errors=True)
+    return result('e2e.C18.csv', 'escape characters ^ and ~ (strings over {sep, quote, escape, a, backslash}); files of 0 / 1 / 4000 (20000) rows of multi-byte text through dump_to_file / load_from_file '
+                  '(> 64 KiB read chunks, encoding None / utf-8); the same dump pipeline subscribed twice; floats: 13 special + 600 (10000) seeded; ints incl. > 64 bit; strings: length <= 3 (4) over {sep, quote, escape, a, space} in 1-2 columns x 5 separators; text re-chunked in two',
                   evals, evals, fails, False, t0)
 
 
@@ -290,9 +435,12 @@ def check_c19(opts):
             for ch in ([text], rechunk(rnd, text, 3), list(text)):
                 got = run_plain(ch, line.unframe(), js.load()); evals += 1
                 if got != items: fails.append({'objects': items[:3], 'chunks': len(ch), 'got': str(got)[:200]})
+        f2, n2 = json_file_scenarios(rs, d, ('encodings', 'line_boundaries', 'bom_at_chunk_boundary', 'short_reads', 'redundant'))
+        fails += f2; evals += n2
     finally:
         import shutil; shutil.rmtree(d, ignore_errors=True)
-    return result('e2e.C19.json', f'seeded nested objects (64-bit ints, unicode, embedded newlines/quotes) x sizes {sizes} x None/gzip/zstd through real files (> 64 KiB read chunks); in-memory re-chunkings',
+    return result('e2e.C19.json', f'seeded nested objects (64-bit ints, unicode, embedded newlines/quotes) x sizes {sizes} x None/gzip/zstd through real files (> 64 KiB read chunks); in-memory re-chunkings; utf-8/16/32 files; strings with U+2028/U+2029/U+0085/CR/U+FEFF; '
+                  'U+FEFF at read-chunk boundaries; custom open_obj with short reads; 45000 equal objects (one compressed chunk inflating to ~3 MB)',
                   evals, evals, fails, False, t0)
 
 
@@ -342,6 +490,22 @@ def check_c20(opts):
             got = []; pq_.load_from_file(fn).subscribe(on_next=got.append); evals += 1
             if got != data:
                 fails.append({'problem': f'write #{attempt} of the same dump_to_file pipeline', 'rows': 5, 'rows_read': len(got)})
+        # rows are mappings: equal dicts built with different key orders (also within one batch), keys in an order other than the schema's, extra keys
+        sch2 = pa.schema([('lo', pa.int64()), ('hi', pa.int64()), ('name', pa.string())])
+        variants = [lambda k: {'lo': k, 'hi': 1000 + k, 'name': f'n{k}'}, lambda k: {'hi': 1000 + k, 'name': f'n{k}', 'lo': k}, lambda k: {'name': f'n{k}', 'lo': k, 'hi': 1000 + k, 'extra': 0}]
+        for pattern in ((0, 1), (1, 0, 0), (2, 0, 1), (1,), (0, 0, 0, 1)):
+            for bs in (1, 2, 4, 64):
+                data = [variants[pattern[k % len(pattern)]](k) for k in range(9)]
+                want = [{'lo': r['lo'], 'hi': r['hi'], 'name': r['name']} for r in data]
+                fn = os.path.join(d, f'ko_{"".join(map(str, pattern))}_{bs}.parquet')
+                r = run_plain(data, pq_.dump_to_file(fn, sch2, batch_size=bs))
+                got = []; err = []
+                try: pq_.load_from_file(fn).subscribe(on_next=got.append, on_error=err.append)
+                except Exception as ex: err.append(ex)
+                evals += 1
+                if err or got != want:
+                    fails.append({'scenario': 'rows as dicts with different key orders', 'key order pattern': pattern, 'dump_batch_size': bs, 'error': repr(err[0])[:200] if err else None,
+                                  'first_difference': next(((a, b) for a, b in zip(got, want) if a != b), None), 'rows_read': len(got)})
         # file object instead of a path
         buf = io.BytesIO(); data = rows(5)
         run_plain(data, pq_.dump_to_file(buf, schema, batch_size=2)); buf.seek(0)
@@ -349,4 +513,4 @@ def check_c20(opts):
         if got != data: fails.append({'file_object': True, 'rows': 5, 'rows_read': len(got)})
     finally:
         import shutil; shutil.rmtree(d, ignore_errors=True)
-    return result('e2e.C20.parquet', f'row counts {counts} x dump batch sizes {bsizes} x load batch sizes x codecs, nested struct/list columns, path and file object', evals, evals, fails, False, t0)
+    return result('e2e.C20.parquet', f'row counts {counts} x dump batch sizes {bsizes} x load batch sizes x codecs, nested struct/list columns, path and file object; dict rows with different key orders / extra keys', evals, evals, fails, False, t0)
